@@ -182,6 +182,10 @@ func init() {
 		"zzSleptNs": func(fr *frame, a []value) value {
 			return wrapTerm(types.Typ[types.Int64], fr.i.side.sleptTerm())
 		},
+		"zzConcreteRand": func(fr *frame, a []value) value {
+			fr.i.side.concreteRand = true
+			return nil
+		},
 		"zzParam": func(fr *frame, a []value) value {
 			if v, ok := engineParams[strArg(a[0])]; ok {
 				return v
